@@ -141,3 +141,72 @@ func VH_C16_A(n int, alpha int) {
 		vAssert(vImplies(two, found), "C16/T4-two-char-operator")
 	}
 }
+
+// vExtent: [start, end) of a token in the query text (quoted literals include their quotes).
+func vExtent(q string, t *Token) (int, int) {
+	end := t.Pos + len(t.Data)
+	if t.Tp == STRING || (t.Tp == NAME && t.Pos >= 0 && t.Pos < len(q) && q[t.Pos] == '`') {
+		end += 2
+	}
+	return t.Pos, end
+}
+
+// VH_C16_B (spacing): for a query whose token extents and blanks tile it completely, inserting
+// one blank at any extent boundary leaves the sequence of token kinds and texts unchanged and
+// shifts the later offsets by one.
+func VH_C16_B(n int, alpha int) {
+	al := vLexAlpha
+	if alpha == 1 {
+		al = vPrintable
+	}
+	vFreeParseFloat(true)
+	q := vNondetString("q", n, n, al)
+	balanced, _ := vQuoteScan(q)
+	vAssume(balanced)
+	toks := NewLexer(q).Split()
+	// tiling: every byte belongs to an extent or is a blank (decided per path: offsets are concrete)
+	covered := make([]bool, n)
+	for _, t := range toks {
+		s, e := vExtent(q, t)
+		if s < 0 || e > n {
+			return // C16/T1 is harness A's subject
+		}
+		for i := s; i < e; i++ {
+			covered[i] = true
+		}
+	}
+	for i := 0; i < n; i++ {
+		if !covered[i] {
+			if q[i] != ' ' { // forks
+				vCover("not-tiled")
+				return
+			}
+		}
+	}
+	bounds := map[int]bool{}
+	for _, t := range toks {
+		s, e := vExtent(q, t)
+		bounds[s] = true
+		bounds[e] = true
+	}
+	for p := 0; p <= n; p++ {
+		if !bounds[p] {
+			continue
+		}
+		q2 := q[:p] + " " + q[p:]
+		toks2 := NewLexer(q2).Split()
+		vAssert(len(toks2) == len(toks), "C16/T5-inserting-a-blank-changes-the-number-of-tokens")
+		ok := true
+		for i := range toks {
+			ok = vAnd(ok, toks2[i].Tp == toks[i].Tp)
+			ok = vAnd(ok, toks2[i].Data == toks[i].Data)
+			shift := 0
+			if toks[i].Pos >= p {
+				shift = 1
+			}
+			ok = vAnd(ok, toks2[i].Pos == toks[i].Pos+shift)
+		}
+		vAssert(ok, "C16/T5-inserting-a-blank-changes-token-kinds-texts-or-offsets")
+		vCover("spaced")
+	}
+}
